@@ -3,7 +3,8 @@
 For every explainer configuration and every stream, every explain_one call t and every callback
 invocation k of that call (model, loss, imputer entry/return, storage get_data/update) is made to raise
 (one fault per execution in the quick tier, pairs – same call retried or two calls – in thorough),
-combined with the deviation-bounded enumeration of the library's draws.  Oracle: the very exception
+combined with the deviation-bounded enumeration of the library's draws (pairs of faults: a reduced set of
+configurations in the thorough tier).  Oracle: the very exception
 object propagates; a deep snapshot of all estimates is identical before/after the failed call; the
 stream is resumed (the failed observation is retried) and the efficiency identity C01 holds after every
 later call of IncrementalSage.
@@ -29,7 +30,8 @@ def to_nparray(v):
 
 def plan(tier):
     tasks = []
-    bound = 2 if tier == 'thorough' else 1
+    bound = 1
+    deep = tier == 'thorough'
     storages = ['Batch', 'Geometric'] + (['Uniform', 'Interval', 'Sequence'] if tier == 'thorough' else [])
     for expl in ('sage', 'pfi'):
         for dyn in (False, True):
@@ -43,7 +45,8 @@ def plan(tier):
                                 cfg = dict(expl=expl, dynamic=dyn, alpha=F(1, 4), n_inner=n, d=d, storage=st,
                                            imputer=im, names='str' if d == 3 else 'int', lbib=(n == 2),
                                            model=model, loss='sq', kind='incremental', conv=None)
-                                tasks.append((cfg, 3, bound))
+                                pairs = deep and d == 2 and n == 1 and st in ('Batch', 'Geometric') and im == 'joint'
+                                tasks.append((cfg, 3, 2 if pairs else bound))
     # NumPy-array valued model outputs (in-place arithmetic on aliased values)
     for expl in ('sage', 'pfi'):
         for dyn in (False, True):
@@ -58,8 +61,8 @@ def plan(tier):
                 for model in ('scalar', 'multi'):
                     cfg = dict(expl=kind, d=d, n_inner=n, names='str', model=model, loss='sq', kind=kind,
                                dynamic=None, alpha=None, storage='own', imputer='own', conv=None)
-                    tasks.append((cfg, 3, bound))
-    tasks.sort(key=lambda t: -(t[0]['d'] * t[0]['n_inner'] * (3 if t[0]['kind'] != 'incremental' else 1)))
+                    tasks.append((cfg, 3, 2 if (deep and d == 2 and n == 1 and model == 'scalar') else bound))
+    tasks.sort(key=lambda t: -(t[0]['d'] * t[0]['n_inner'] * (3 if t[0]['kind'] != 'incremental' else 1) * (50 if t[2] == 2 else 1)))
     return tasks
 
 
@@ -148,7 +151,7 @@ def make_driver(cfg, T, asize=2, K=None):
         for t in range(T):
             x, y = letters[run.choose(len(letters), 'obs', None, 0)]
             for attempt in range(3):
-                k = run.choose(K + 1, 'fault-position', None, 1) if (attempt < 2 and K) else 0
+                k = run.choose(K + 1, 'fault-position', None, 1, keep_default=True) if (attempt < 2 and K) else 0
                 before = snapshot(ex)
                 h.inj.begin_call(armed=k if k > 0 else None)
                 try:
